@@ -128,10 +128,6 @@ func (f *Field) sortArgs() (errors []error) {
 		}
 		if ot, _ := f.ConType.(*Object); ot != nil {
 			if fd := ot.fields.get(f.Name); fd != nil {
-				args := make([]*ArgValue, 0, len(f.Args))
-				for _, a := range fd.args.list {
-					args = append(args, f.getArg(a.N))
-				}
 				// Always check the names. Comparing counts only misses an
 				// undeclared argument given in place of a declared one.
 				for _, av := range f.Args {
@@ -139,9 +135,9 @@ func (f *Field) sortArgs() (errors []error) {
 						errors = append(errors, valError(av.line, av.col, "%s is not an argument to %s", av.Arg, f.Name))
 					}
 				}
-				if len(errors) == 0 {
-					f.Args = args
-				}
+				// The order of f.Args is left as written so the printed form
+				// of the executable does not change. Arguments are looked up
+				// by name when the field is resolved.
 			}
 		}
 	}
